@@ -28,6 +28,7 @@ func propC13(c *Ctx) propInfo {
 	la.lockOrder("E9.K4-lock-order")
 	c.boundedWaits()
 	c.selectionRules()
+	c.losslessPublication()
 	c.waitListIDs()
 	c.floor("E9.K1-guarded-by", 20)
 	c.floor("E9.K2-pairing", 10)
@@ -123,6 +124,7 @@ func (c *Ctx) selectionRules() {
 	// in findBestPing every value that flows into the loop-carried candidate / threshold is defined
 	// behind both reject filters
 	c.updatesBehindFilters(R, fb)
+	c.replacementKey(R, fb)
 	// updateBest: each store to ConnPool.bestConn is dominated by "candidate != nil"
 	nSt := 0
 	okSt := true
@@ -322,4 +324,159 @@ func (c *Ctx) waitListIDs() {
 	})
 	// the non-fast return hands out the same id that was used as key
 	c.check(n == 1, R, "one registration site", f.Pos(), "subscribe registers the channel exactly once", fmt.Sprintf("expected one waitList registration in subscribe, found %d", n))
+}
+
+// phiSources: the non-phi values that can enter the loop-carried phi ph from inside the loop, with
+// the block each one comes from (nested join phis are expanded; the phi itself = "unchanged").
+func phiSources(ph *ssa.Phi) map[*ssa.BasicBlock]ssa.Value {
+	out := map[*ssa.BasicBlock]ssa.Value{}
+	seen := map[*ssa.Phi]bool{}
+	var rec func(p *ssa.Phi)
+	rec = func(p *ssa.Phi) {
+		if seen[p] {
+			return
+		}
+		seen[p] = true
+		for i, e := range p.Edges {
+			if e == ssa.Value(ph) {
+				continue
+			}
+			if q, ok := e.(*ssa.Phi); ok {
+				rec(q)
+				continue
+			}
+			if _, isConst := e.(*ssa.Const); isConst {
+				continue // initial value
+			}
+			out[p.Block().Preds[i]] = e
+		}
+	}
+	rec(ph)
+	return out
+}
+
+// replacementKey: in the best-ping scan the candidate's round-trip time is compared with the
+// round-trip time of the CURRENT best: either obtained from the running best itself, or from a
+// loop-carried copy that is updated on exactly the edges on which the running best is.
+func (c *Ctx) replacementKey(R string, f *ssa.Function) {
+	var best *ssa.Phi
+	allInstrs(f, func(_ *ssa.BasicBlock, in ssa.Instruction) {
+		if ph, ok := in.(*ssa.Phi); ok && ph.Comment == "bestConn" && best == nil {
+			best = ph
+		}
+	})
+	if best == nil {
+		c.bad(R, "best-ping replacement compares with the current best", f.Pos(), "no loop-carried bestConn found in findBestPingConnection (anchor moved?)")
+		return
+	}
+	isRTT := func(v ssa.Value, recv func(ssa.Value) bool) bool {
+		cl := callOf(v)
+		return cl != nil && cl.Call.IsInvoke() && cl.Call.Method.Name() == "AverageRoundTrip" && recv(cl.Call.Value)
+	}
+	isBest := func(v ssa.Value) bool {
+		return derivesFrom(v, func(x ssa.Value) bool { return x == ssa.Value(best) }, false)
+	}
+	n := 0
+	okv := true
+	why := ""
+	for _, b := range f.Blocks {
+		iff := lastIf(b)
+		if iff == nil {
+			continue
+		}
+		bo, ok := iff.Cond.(*ssa.BinOp)
+		if !ok || (bo.Op != token.LSS && bo.Op != token.GTR && bo.Op != token.LEQ && bo.Op != token.GEQ) {
+			continue
+		}
+		// one side is the candidate's RTT
+		var other ssa.Value
+		notBest := func(v ssa.Value) bool { return !isBest(v) }
+		if isRTT(bo.X, notBest) || derivesFrom(bo.X, func(x ssa.Value) bool { return isRTT(x, notBest) }, false) {
+			other = bo.Y
+		} else if isRTT(bo.Y, notBest) || derivesFrom(bo.Y, func(x ssa.Value) bool { return isRTT(x, notBest) }, false) {
+			other = bo.X
+		} else {
+			continue
+		}
+		n++
+		if isRTT(other, isBest) {
+			continue // compared with the current best's own value
+		}
+		ph, isPhi := other.(*ssa.Phi)
+		if !isPhi {
+			okv = false
+			why = "the candidate's round-trip time is compared with " + shape(other, 3) + ", which is neither the current best's round-trip time nor a loop-carried copy of it"
+			continue
+		}
+		a, bsrc := phiSources(best), phiSources(ph)
+		for blk := range a {
+			if _, ok := bsrc[blk]; !ok {
+				okv = false
+				why = fmt.Sprintf("the running best is replaced on the edge from block %d (%s) but the cached round-trip time %s it is compared with is not updated there: later candidates are compared with an earlier connection's time", blk.Index, c.rel(iffPos(blk)), ph.Comment)
+			}
+		}
+		for blk := range bsrc {
+			if _, ok := a[blk]; !ok {
+				okv = false
+				why = fmt.Sprintf("the cached round-trip time %s is updated on an edge (block %d) where the running best is not", ph.Comment, blk.Index)
+			}
+		}
+	}
+	c.check(okv && n >= 1, R, "best-ping replacement compares with the current best", f.Pos(), fmt.Sprintf("%d comparison(s) of the candidate's AverageRoundTrip with that of the running best", n), "findBestPingConnection: "+why)
+}
+
+func iffPos(b *ssa.BasicBlock) token.Pos {
+	for _, in := range b.Instrs {
+		if in.Pos().IsValid() {
+			return in.Pos()
+		}
+	}
+	return token.NoPos
+}
+
+// losslessPublication: when a connection's head advances, the update is handed to the pool with
+// a blocking send (a non-blocking send with a default case drops it when the shared channel is
+// full, and the waiters for that seqno are never woken).
+func (c *Ctx) losslessPublication() {
+	const R = "E9.K8-lossless-publication"
+	f := c.mustFn(R, "liteapi/pool", "connection.SetMasterHead")
+	if f == nil {
+		return
+	}
+	var sends []*ssa.Send
+	nonBlocking := 0
+	allInstrs(f, func(_ *ssa.BasicBlock, in ssa.Instruction) {
+		switch x := in.(type) {
+		case *ssa.Send:
+			if _, n, ok := fieldOfLoad(x.Chan); ok && n == "masterHeadUpdatedCh" {
+				sends = append(sends, x)
+			}
+		case *ssa.Select:
+			for _, st := range x.States {
+				if _, n, ok := fieldOfLoad(st.Chan); ok && n == "masterHeadUpdatedCh" && st.Dir == types.SendOnly && !x.Blocking {
+					nonBlocking++
+				}
+			}
+		}
+	})
+	okv := len(sends) == 1 && nonBlocking == 0
+	if okv {
+		// the send happens exactly when the head was stored: same condition value
+		var stBlk *ssa.BasicBlock
+		for _, st := range fieldStores(f, "masterHead") {
+			stBlk = st.Block()
+		}
+		okv = stBlk != nil
+		if okv {
+			fa, fb := factsAt(f, stBlk), factsAt(f, sends[0].Block())
+			okv = len(fa) == 1 && len(fb) == 1 && fa[0].Cond == fb[0].Cond && fa[0].Truth == fb[0].Truth
+		}
+		// and the message carries the new head and this connection
+		if okv {
+			lv := strings.Join(leaves(sends[0].X), ",")
+			okv = lv == "c,head"
+		}
+	}
+	c.check(okv, R, "SetMasterHead publishes every accepted head with a blocking send", f.Pos(), "one send of {Head: head, Conn: c} under the same condition as the store", fmt.Sprintf("SetMasterHead no longer hands every accepted head to the pool (blocking sends: %d, non-blocking sends that drop when the channel is full: %d): a waiter for that seqno is not woken although the best connection reported it in time", len(sends), nonBlocking))
+	c.floor(R, 1)
 }
